@@ -957,7 +957,9 @@ func ruleC09MeterArray(w *World, r *Report) {
 		}
 	}
 	reset := w.Fn(P, "pfcpiface.(*UP4).resetMeters")
-	for _, c := range callsIn(reset, func(c ssa.CallInstruction) bool { return staticCallee(c) != nil && staticCallee(c).Name() == "resetMeter" }) {
+	for _, c := range callsIn(reset, func(c ssa.CallInstruction) bool {
+		return staticCallee(c) != nil && staticCallee(c).Name() == "resetMeter"
+	}) {
 		n++
 		k, isK := constInt(c.Common().Args[1])
 		kind := int64(-1)
